@@ -49,7 +49,7 @@ func SpecECDSAEq(c elliptic.Curve, qx, qy, e, r, s Mathint) bool {
 
 // SpecVerifies: what Verify must decide, for every integer r and s.
 //
-//@ spec
+//@ spec opaque
 func SpecVerifies(c elliptic.Curve, qx, qy Mathint, hash string, r, s Mathint) bool {
 	n := ECOrder(c)
 	return r > 0 && s > 0 && r < n && s < n && SpecECDSAEq(c, qx, qy, SpecHashToInt(hash, n), r, s)
@@ -93,6 +93,7 @@ func specKeyOK(pub *PublicKey) bool {
 //
 //@ func Verify(pub *PublicKey, hash []byte, r *big.Int, s *big.Int) (ok bool)
 //@ props C03 C06 C07 C13 C16 C17
+//@ reveal SpecVerifies
 //@ requires specKeyOK(pub) && r != nil && s != nil
 //@ ensures ok == SpecVerifies(pub.Curve, BigVal(pub.X), BigVal(pub.Y), string(hash), BigVal(r), BigVal(s))
 //@ assigns none
@@ -154,6 +155,7 @@ func SpecBlindScalar(c elliptic.Curve, d Mathint, ctx string) Mathint {
 //@ ensures (err == nil) == SpecCurveSupported(c)
 //@ ensures err == nil ==> res != nil && fresh(res) && res.Curve == c && res.X != nil && res.Y != nil && res.X != res.Y
 //@ ensures err == nil ==> BigVal(res.X) == ECMulX(c, k, BigVal(pk.X), BigVal(pk.Y)) && BigVal(res.Y) == ECMulY(c, k, BigVal(pk.X), BigVal(pk.Y))
+//@ ensures err == nil ==> ECOnCurve(c, BigVal(res.X), BigVal(res.Y))
 //@ assigns none
 //@ end
 
